@@ -862,3 +862,140 @@ def c03_k(ctx):
 def c03_l(ctx):
     from . import C14 as _C14
     return _C14.c14_h(ctx)
+
+
+@obligation('C03-m', 'T11 T1', 'execute(): a node of the order runs its operation exactly when it '
+            'carries one, its value replaces the operation, inconsistent nodes are refused; the '
+            'order is the topological order restricted to the execution set and is what is '
+            'returned', floor=7,
+            necessary='an operation that runs under the negated test never runs (or a supplied '
+                      'value is recomputed); an order filtered by the complement runs exactly the '
+                      'operations the outputs do not need')
+def c03_m(ctx):
+    exe = ctx.fn('elfi.executor:Executor.execute')
+    ex = ctx.ex(exe)
+    cfg = cfg_of(exe)
+    loops = [n for n in own_nodes(exe.node) if isinstance(n, ast.For)]
+    lo = None
+    for n in loops:
+        if match(ex.term(n.iter, cfg.by_stmt[id(n)]), pattern('cls.get_execution_order(G)')) \
+                is not None and isinstance(n.target, ast.Name):
+            lo = n
+    ctx.check(lo is not None, exe, 'nodes visited in execution order',
+              'for node in cls.get_execution_order(G)',
+              'execute does not iterate over the execution order', fn=exe,
+              node=loops[0] if loops else exe.node)
+    if lo is None:
+        return
+    runs = [c for c in ast.walk(lo) if isinstance(c, ast.Call) and
+            match(ex.term(c), pattern('cls._run(*_)')) is not None]
+    if len(runs) != 1:
+        ctx.undecided('expected one call of _run in the loop, found {}'.format(len(runs)))
+    run = runs[0]
+    a = [ex.term(x) for x in run.args]
+    nd = a[1] if len(a) == 3 else None
+    ok = len(a) == 3 and nd is not None and nd[0] == 'elem' and \
+        match(a[0], pattern("G.nodes[_n]['operation']")) is not None and \
+        match(a[0], pattern("G.nodes[_n]['operation']"))['n'] == nd and a[2] == ('param', 'G')
+    ctx.check(ok, exe, 'the node\'s own operation is run on the graph',
+              "cls._run(G.nodes[node]['operation'], node, G)",
+              '_run is not given (operation of the node, the node, the graph)', fn=exe, node=run)
+    HAS_OP = "'operation' in G.nodes[_n]"
+    BOTH = ("{'operation', 'output'} <= G.nodes[_n].keys()",
+            "G.nodes[_n].keys() >= {'operation', 'output'}")
+    gs = ctx.guards(exe, run)
+    ok = any(pol and match(t, pattern(HAS_OP)) is not None for (t, pol, _) in gs)
+    inner = set(id(x) for x in ast.walk(lo))
+    local = [(ex.term(tn.ast, tn), pol) for (tn, pol) in cfg.guards_of(ctx.node(exe, run))
+             if tn.kind == 'test' and id(tn.ast) in inner]
+    extra = [t for (t, pol) in local
+             if not (pol and match(t, pattern(HAS_OP)) is not None) and
+             not ((not pol) and match_any(t, BOTH) is not None)]
+    ctx.check(ok and not extra, exe, 'operation runs exactly when the node carries one',
+              "if 'operation' in attr: ... _run(...)",
+              'the operation is run under another condition than `the node carries an '
+              'operation`', fn=exe, node=run)
+    # value stored into the node, operation dropped afterwards (runs once)
+    st = getattr(run, '_parent', None)
+    okv = isinstance(st, ast.Call) and callee_name(st) == 'update' and \
+        match(ex.term(st.func.value), pattern('G.nodes[_n]')) is not None and \
+        match(ex.term(st.func.value), pattern('G.nodes[_n]'))['n'] == nd
+    dels = [n for n in ast.walk(lo) if isinstance(n, ast.Delete) and
+            any(match(ex.term(t), pattern("G.nodes[_n]['operation']")) is not None
+                for t in n.targets)] + \
+           [c for c in ast.walk(lo) if isinstance(c, ast.Call) and callee_name(c) == 'pop' and
+            c.args and ex.term(c.args[0]) == ('const', 'operation')]
+    okv = okv and len(dels) == 1 and cfg.exists_path(ctx.node(exe, run), ctx.node(exe, dels[0])) \
+        and not cfg.exists_path(ctx.node(exe, dels[0]), ctx.node(exe, run),
+                                avoiding=[cfg.by_stmt[id(lo)]])
+    ctx.check(okv, exe, 'value stored, operation dropped after it ran',
+              "G.nodes[node].update(_run(...)); del G.nodes[node]['operation']",
+              'the result of the operation is not stored in the node, or the operation is not '
+              'removed after it ran', fn=exe, node=st if isinstance(st, ast.Call) else run)
+    # refusals
+    rs = [r for r in ast.walk(lo) if isinstance(r, ast.Raise) and
+          not any(isinstance(h, ast.ExceptHandler) and _inside(r, h) for h in ast.walk(lo))]
+    both = [r for r in rs if any(pol and match_any(t, BOTH) is not None
+                                 for (t, pol, _) in ctx.guards(exe, r))]
+    none = [r for r in rs if any((not pol) and match(t, pattern(HAS_OP)) is not None
+                                 for (t, pol, _) in ctx.guards(exe, r)) and
+            any((not pol) and match(t, pattern("'output' in G.nodes[_n]")) is not None
+                for (t, pol, _) in ctx.guards(exe, r))]
+    ctx.check(len(both) == 1 and len(none) == 1 and len(rs) == 2, exe,
+              'inconsistent nodes refused', 'raise for (operation and output) / (neither)',
+              'a node with both an operation and a value, or with neither, is not refused '
+              'exactly in these two cases', fn=exe, node=(rs or [lo])[0])
+    # get_execution_order: ordered list = sort order restricted to the execution set, cached
+    # under the (needed, given) key, returned
+    eo = ctx.fn('elfi.executor:Executor.get_execution_order')
+    exo = ctx.ex(eo)
+    cfo = cfg_of(eo)
+    CACHE = "G.graph.get('_executor_cache', _)"
+    st = [s for s in own_nodes(eo.node) if isinstance(s, ast.Assign) and
+          isinstance(s.targets[0], ast.Subscript) and
+          match(exo.term(s.targets[0].value), pattern(CACHE)) is not None and
+          exo.raw(s.targets[0].slice) != ('const', 'sort_order')]
+    ok = len(st) == 1
+    if ok:
+        v = exo.term(st[0].value)
+        ok = v[0] == 'comp' and v[1] == 'list' and len(v[3]) == 1 and len(v[3][0][1]) == 1
+        if ok:
+            it, cond, elt = v[3][0][0], v[3][0][1][0], v[2]
+            mm = match(cond, pattern('_n in _s'))
+            srt = [s_ for s_ in own_nodes(eo.node) if isinstance(s_, ast.Assign) and
+                   match(exo.term(s_.value), pattern('nx_constant_topological_sort(G)'))
+                   is not None and isinstance(s_.targets[0], ast.Subscript) and
+                   exo.raw(s_.targets[0].slice) == ('const', 'sort_order')]
+            ok = mm is not None and mm['n'] == elt and elt[0] == 'elem' and \
+                (contains(it, 'nx_constant_topological_sort(G)') or
+                 (match(it, pattern("_c['sort_order']")) is not None and len(srt) == 1 and
+                  cfo.exists_path(ctx.node(eo, srt[0]), ctx.node(eo, st[0])))) and \
+                match(mm['s'], pattern('set(_x)')) is not None
+    ctx.check(ok, eo, 'order = topological order restricted to the execution set',
+              '[n for n in sort_order if n in nodes_to_execute]',
+              'the execution order is not the constant topological order filtered to the nodes '
+              'that must run', fn=eo, node=st[0] if st else eo.node)
+    if st:
+        keyt = exo.term(st[0].targets[0].slice)
+        g_ok = any(pol and match(t, pattern('_k not in _c')) is not None and
+                   match(t, pattern('_k not in _c'))['k'] == keyt
+                   for (t, pol, _) in ctx.guards(eo, st[0])) or \
+            any((not pol) and match(t, pattern('_k in _c')) is not None and
+                match(t, pattern('_k in _c'))['k'] == keyt
+                for (t, pol, _) in ctx.guards(eo, st[0]))
+        rr = returns(eo)
+        falls = [p for (p, lab) in cfo.ret.pred
+                 if not (p.kind == 'stmt' and isinstance(p.ast, ast.Return))]
+        r_main = [r for r in rr if match(exo.term(r.value), pattern(CACHE + '[_k]')) is not None
+                  and match(exo.term(r.value), pattern(CACHE + '[_k]'))['k'] == keyt]
+        r_empty = [r for r in rr if exo.term(r.value) == ('list', ())]
+        ok = g_ok and not falls and len(r_main) == 1 and len(r_main) + len(r_empty) == len(rr) \
+            and all(any(pol and match_any(t, ('len(_n) == 0', 'not _n')) is not None
+                        for (t, pol, _) in ctx.guards(eo, r)) or
+                    any((not pol) and t[0] in ('name',) for (t, pol, _) in ctx.guards(eo, r))
+                    for r in r_empty)
+        ctx.check(ok, eo, 'computed once per key, the entry of this key returned',
+                  'if key not in cache: cache[key] = ...; return cache[key]',
+                  'the order is not computed when (and only when) its key is missing, or another '
+                  'entry than this key\'s is returned', fn=eo, node=r_main[0] if r_main else
+                  st[0])
